@@ -170,7 +170,17 @@ pub fn report(
 
 pub fn gen_case(args: &Args, rng: &mut Rng, finite_inputs: bool) -> Case {
     let feat = feat_for(args, rng);
-    let prog = generate(rng, feat);
+    let mut prog = generate(rng, feat.clone());
+    // programs whose call tree explodes (nested higher-order calls) would run unbounded on the
+    // WASM runtime, which has no instruction budget: draw again (C03 keeps them, it judges hangs)
+    if args.prop != "C03" {
+        for _ in 0..6 {
+            if !crate::refsem::is_heavy(&prog, 2, 150_000) {
+                break;
+            }
+            prog = generate(rng, feat.clone());
+        }
+    }
     let src = prog.print();
     let n = *rng.pick(&[8usize, 16, 24, 40, 64]);
     Case { src, n, input_seed: rng.next(), finite_inputs, prog: Some(prog), expect: None, scheduler: false, path: None, origin: None, split: None }
